@@ -1,6 +1,6 @@
 use fcv::driver::{self, Engine};
 use fcv::props::Tier;
-use fcv::{crash, engine_for, regress};
+use fcv::{crash, engine_for, regress, storm_engine_for};
 
 
 fn arg(args: &[String], name: &str) -> Option<String> {
@@ -59,8 +59,47 @@ fn main() {
                 driver::run(engine, id, seed, cases, threads, max_len, hang, &replay_dir)
             };
             r.stats.regress_cases = n_regress as u64;
+            let mut storm_failed = false;
+            // storm phase: the same property with wakers invoked by helper
+            // threads; few task threads, so that every helper has a core
+            if r.failure.is_none() && regress_failure.is_none() && std::env::var("FCV_NO_STORM").is_err() {
+                if let Some((se, mut scases, slen)) = storm_engine_for(&prop, tier) {
+                    if let Some(c) = arg(&args, "--storm-cases").and_then(|s| s.parse().ok()) {
+                        scases = c;
+                    }
+                    let sthreads: usize = std::env::var("FCV_STORM_THREADS").ok().and_then(|s| s.parse().ok()).unwrap_or(5);
+                    if scases > 0 {
+                        driver::STORM_PHASE.store(true, std::sync::atomic::Ordering::SeqCst);
+                        crash::install(&format!("{}/crash-{}-{}.storm.bin", replay_dir, id, driver::config_name()));
+                        let sr = driver::run(se, id, seed ^ 0x5707, scases, sthreads, slen, hang, &replay_dir);
+                        let st = sr.stats;
+                        r.stats.evaluations += st.evaluations;
+                        r.stats.nontrivial_evals += st.nontrivial_evals;
+                        r.stats.distinct.extend(st.distinct);
+                        for (k, v) in st.labels {
+                            *r.stats.labels.entry(k).or_default() += v;
+                        }
+                        for (k, v) in st.inconclusive {
+                            *r.stats.inconclusive.entry(k).or_default() += v;
+                        }
+                        for (k, v) in st.other_signals {
+                            *r.stats.other_signals.entry(k).or_default() += v;
+                        }
+                        for (k, v) in st.other_examples {
+                            r.stats.other_examples.entry(k).or_insert(v);
+                        }
+                        if r.stats.samples.len() < 8 {
+                            r.stats.samples.extend(st.samples.into_iter().take(2));
+                        }
+                        if sr.failure.is_some() {
+                            storm_failed = true;
+                        }
+                        r.failure = sr.failure;
+                    }
+                }
+            }
             let wall = t0.elapsed().as_secs_f64();
-            let mut replay = r.failure.as_ref().map(|f| driver::write_replay(&replay_dir, id, ename, f));
+            let mut replay = r.failure.as_ref().map(|f| driver::write_replay(&replay_dir, id, if storm_failed { "storm" } else { ename }, f));
             if let Some((name, f)) = regress_failure {
                 replay = Some(driver::write_regress_replay(&replay_dir, id, &name, &f));
                 r.failure = Some(f);
@@ -123,12 +162,38 @@ fn main() {
                 Some("thorough") => Tier::Thorough,
                 _ => Tier::Quick,
             };
-            let Some((engine, _rule, _c, _l, id)) = engine_for(&prop, tier) else {
+            let Some((mut engine, _rule, _c, _l, id)) = engine_for(&prop, tier) else {
                 eprintln!("unknown property {}", prop);
                 std::process::exit(2);
             };
             crash::install("");
-            let ev = engine.eval(&bytes, true);
+            // a storm case depends on how the helper threads happen to be
+            // scheduled: repeat it until the violation shows again (bounded)
+            let storm = get("engine").as_deref() == Some("storm");
+            let mut ev = None;
+            if storm {
+                let Some((se, _, _)) = storm_engine_for(&prop, tier) else {
+                    eprintln!("no storm engine for {} in this configuration", prop);
+                    std::process::exit(2);
+                };
+                engine = se;
+                let reps: usize = arg(&args, "--repeat").and_then(|s| s.parse().ok()).unwrap_or(20_000);
+                for i in 0..reps {
+                    let e = engine.eval(&bytes, true);
+                    if e.violations.iter().any(|v| v.oracle.property() == id) {
+                        println!("(storm case: violation reproduced in repetition {})", i + 1);
+                        ev = Some(e);
+                        break;
+                    }
+                }
+                if ev.is_none() {
+                    println!("(storm case: {} repetitions without a violation)", reps);
+                }
+            }
+            let ev = match ev {
+                Some(e) => e,
+                None => engine.eval(&bytes, true),
+            };
             println!("case: {}", ev.show);
             for l in &ev.trace {
                 println!("{}", l);
